@@ -25,6 +25,7 @@ Inductive op :=
 | OMac (mac : bytes)
 | OIp (site : N) (ip : bytes)
 | OCid (cid : bytes)
+| OCidAt (pos : nat) (opts : bytes) (avail : nat) (cid : bytes)
 | OVlan (s c p1 p2 : N)
 | OAlg (port proto : N)
 | OLpm (plen : N) (net src : bytes)
@@ -88,10 +89,15 @@ Definition step (_ : unit) (o : op) : unit * out * list N :=
   | OGet record p bs =>
       let ok := xfer_ok record p in
       (tt, [b2n ok] :: (if ok then decode_go (pgo p) bs else []), layout_markers record p)
-  | OMac mac =>
-      let hit1 := l_eqb (go_mac_key_ebpf mac) (c_mac_key_dhcp mac) in
-      let hit2 := l_eqb (go_mac_key_antispoof mac) (c_mac_key_antispoof mac) in
-      (tt, [go_mac_key_ebpf mac; go_mac_key_antispoof mac; [b2n hit1; b2n hit2]], [])
+  | OMac mac =>   (* hardware address of any length 0..16 *)
+      let g := go_mac_key_ebpf mac in
+      let c := c_mac_key_dhcp_chaddr mac in
+      let hit := l_eqb g c in
+      let asp := match go_mac_antispoof_add mac with
+                 | Some k => [[1]; k; [b2n (l_eqb k (c_mac_key_antispoof mac))]]
+                 | None => [[0]; []; [1]]
+                 end in
+      (tt, [g; c; [b2n hit; 1]] ++ asp ++ [[b2n (go_mac_antispoof_remove_panics mac)]], if hit then [] else [641])
   | OIp site ip =>
       let g := ip_go_bytes site ip in
       let hit := l_eqb g (c_ip_bytes ip) in
@@ -100,6 +106,12 @@ Definition step (_ : unit) (o : op) : unit * out * list N :=
       let g := go_cid_key cid in
       let hit := match c_cid_key cid with Some k => l_eqb k g | None => false end in
       (tt, [g; [b2n hit]], if Nat.ltb CID_LEN (List.length cid) then [621] else [])
+  | OCidAt pos opts avail cid =>
+      let g := go_cid_key cid in
+      let hit := match c_extract_cid opts avail with Some k => l_eqb k g | None => false end in
+      (tt, [g; [b2n hit]],
+       if hit then [] else if Nat.ltb CID_LEN (List.length cid) then [621]
+       else if ob opts (pos + 1) <? 4 then [622] else [])
   | OVlan s c p1 p2 =>
       let g := go_vlan_key s c in
       let hit := l_eqb g (c_vlan_key (p1 * 4096 + s) (p2 * 4096 + c)) in
@@ -134,9 +146,11 @@ Definition accept (_ : unit) (o : op) (r : out) : unit + N :=
       | [ok] :: vals => if pair_ok record p && (ok =? 1) && ll_eqb vals (decode_c (pc p) bs) then inl tt else inr CL_READ
       | _ => inr CL_READ
       end
-  | OMac _ => if all_ones (last_flags r) then inl tt else inr CL_MAC
+  | OMac _ => if Nat.eqb (List.length r) 7 && all_ones (nth 2 r [] ++ nth 5 r []) then inl tt else inr CL_MAC
   | OIp _ _ => if all_ones (last_flags r) then inl tt else inr CL_IPV4
   | OCid cid => (* an empty circuit-id is "no circuit-id": nothing to agree on *)
+      match cid with [] => inl tt | _ => if all_ones (last_flags r) then inl tt else inr CL_CID end
+  | OCidAt _ _ _ cid =>
       match cid with [] => inl tt | _ => if all_ones (last_flags r) then inl tt else inr CL_CID end
   | OVlan _ _ _ _ => if all_ones (last_flags r) then inl tt else inr CL_VLAN
   | OAlg _ _ => if all_ones (last_flags r) then inl tt else inr CL_ALG
